@@ -135,6 +135,13 @@ Proof.
 Qed.
 Print Assumptions C19_runave_periodic_images.
 
+(* quaternion variables: the deviations are measured by cvm::quaternion::dist2, for which q and -q are the same
+   rotation (unit quaternions: inner product in [-1, 1]) *)
+Theorem C19_runave_quaternion_metric : forall a b : list R, (-1 <= vdot Rops a b <= 1)%R ->
+  lv_dist2 Rops KQuat (map Ropp a) b = lv_dist2 Rops KQuat a b.
+Proof. exact quat_dist2_antipodal. Qed.
+Print Assumptions C19_runave_quaternion_metric.
+
 (* ---- time-correlation function -------------------------------------------------------------------- *)
 (* For all sequences xi, xj of values (component lists) of this variable and of the variable named by
    corrFuncWithColvar (xi = xj for the autocorrelation), all lengths, strides >= 1, offsets, the three
